@@ -43,6 +43,13 @@ func workerMain(scratch string) error {
 			if e := os.MkdirAll(dir, 0o755); e != nil {
 				return e
 			}
+			if len(dir) > 80 {
+				// unix socket paths must stay below ~100 bytes: fall back to a short directory
+				if d, e := os.MkdirTemp("", "c09-"); e == nil {
+					os.RemoveAll(dir)
+					dir = d
+				}
+			}
 			t0 := time.Now()
 			obs := runCase(rq.In, dir)
 			if os.Getenv("VERIFH_C09_TIMING") != "" {
